@@ -51,11 +51,17 @@ Definition is_same (c : cls) : bool := match c with Same => true | _ => false en
 Definition all_same (obs : list cls) : Prop := Forall (fun c => c = Same) obs.
 Definition all_same_b (obs : list cls) : bool := forallb is_same obs.
 
-(* byteslicepool: what a caller sees through the slice it got is exactly what it appended
-   itself since the Get (zeroes where it grew the slice with Resize) — whatever was in memory
-   before and whatever other callers did with the pool. *)
+(* byteslicepool: through the slice it got, a caller sees only zeroes or bytes it wrote itself
+   since its Get - whatever was in memory before and whatever other callers did with the pool
+   (including shrinking a slice before putting it back). *)
 Definition no_carry (mincap : nat) : Prop :=
-  forall h0 es s t, brun mincap (binit h0) es = Some s -> grows_only mincap (binit h0) es ->
+  forall h0 es s t x, brun Fixed mincap (binit h0) es = Some s ->
+                      In x (visible s t) -> x = 0%N \/ In x (written t es []).
+
+(* ... and, as long as no caller shrinks its slice, exactly the bytes it appended, with zeroes
+   where it grew the slice with Resize (both before and after the fix). *)
+Definition exact_when_growing (v : variant) (mincap : nat) : Prop :=
+  forall h0 es s t, brun v mincap (binit h0) es = Some s -> grows_only v mincap (binit h0) es ->
                     visible s t = appended t es [].
 
 (* observations of look-ups: same name <-> same logger *)
